@@ -184,6 +184,25 @@ def gen(run_seed, tier):
                         'blob': blob if r.random() < 0.6 else r.getrandbits(384), 'wait': r.choice([0.0, 1.0, 10.0, 100.0]),
                         'faulty': True})
         sc['ops'] = ops
+        # tiny networks in which EVERY other node is hostile: the scripted reply is then the last outstanding probe of
+        # the lookup, the position from which nothing else can drive the search forward (own stream)
+        r3 = stream('C12.gen.small_hostile', run_seed)
+        if r3.random() < 0.3:
+            n = sc['n'] = r3.choice([2, 2, 3, 4])
+            beh = r3.choice(['mixed', 'mixed'] + HOSTILE_BEHAVIOURS)
+            sc['hostile'] = {str(h): beh for h in range(1, n)}
+            sc['hostile_rate'] = r3.choice([1.0, 1.0, 0.7])
+            sc['net'] = {'latency': [0.001, r3.choice([0.02, 0.3])], 'dup': r3.choice([0.0, 0.1]), 'loss': 0.0}
+            ops = [{'op': 'join', 'node': i, 'wait': 0.0} for i in range(n)]
+            ops.append({'op': 'sleep', 'dt': r3.choice([60, 400, 620])})
+            ops.append({'op': 'faults_on', 'loss': 0.0, 'dead': []})
+            for _ in range(r3.choice([3, 6])):
+                kind = r3.choice(['node', 'node32', 'value', 'value', 'announce'])
+                ops.append({'op': 'lookup' if kind != 'announce' else 'announce', 'kind': kind, 'node': 0,
+                            'blob': blob if r3.random() < 0.6 else r3.getrandbits(384),
+                            'wait': r3.choice([0.0, 1.0, 10.0]), 'faulty': True})
+            sc['ops'] = ops
+            sc['small_hostile'] = True
     return sc
 
 
